@@ -114,10 +114,13 @@ DescRaise ==
    FTP command against a shell rooted at cfg.root.  acc is the sequence of
    <<kind, path>> file-system accesses it made (kind in open / list / create /
    rename / delete / other), served the sequence of paths of the files whose
-   content went out on the wire.  All of them must be inside the root.        *)
+   content went out on the wire.  What is opened, listed, created, renamed,
+   deleted or served must be inside the root.                                 *)
 AccLocs(acc) == {<<acc[i][1], LocOf(acc[i][2])>> : i \in 1..Len(acc)}
+Constrained == {"open", "list", "create", "rename", "delete"}      \* the verbs the property names; kind "other"
+                                                                  \* (chmod, utime, ...) is logged but not constrained
 Confined(acc, served) ==
-    /\ \A i \in 1..Len(acc) : Inside(LocOf(acc[i][2]))
+    /\ \A i \in 1..Len(acc) : acc[i][1] \in Constrained => Inside(LocOf(acc[i][2]))
     /\ \A i \in 1..Len(served) : Inside(LocOf(served[i]))
 WebReq(acc, served) ==
     /\ Confined(acc, served)
@@ -131,7 +134,7 @@ FtpCmd(acc, served) ==
     /\ UNCHANGED cfg
 
 (* Invariants (conjoined primed into every trace step). *)
-NothingOutside == \A t \in touched : Inside(t[2])
+NothingOutside == \A t \in touched : t[1] \in Constrained \cup {"served"} => Inside(t[2])
 LastConfined ==
     /\ (last.e = "child" /\ last.res = "ok" => DirectOrSelf(LocOf(last.path)))
     /\ (last.e \in {"preauthChild", "descendant"} /\ last.res = "ok" => Inside(LocOf(last.path)))
